@@ -1049,3 +1049,273 @@ def check_c15(tracks, rng: random.Random, co: CaseOut, selections=None, model: b
                              str_geff_store(S, T, I))
     finally:
         shutil.rmtree(d, ignore_errors=True)
+
+
+# ------------------------------------------------------------------------------------------------
+# C16 — read-only operations
+# ------------------------------------------------------------------------------------------------
+def deep(v):
+    """type-faithful canonical form (a query that turns a list into an array is a change)"""
+    if isinstance(v, np.ndarray):
+        return ("ndarray", str(v.dtype), tuple(deep(x) for x in v.tolist()))
+    if isinstance(v, (list, tuple)):
+        return (type(v).__name__, tuple(deep(x) for x in v))
+    if isinstance(v, dict):
+        return ("dict", tuple((str(k), deep(x)) for k, x in v.items()))
+    if isinstance(v, (float, np.floating)):
+        return (type(v).__name__, repr(float(v)))
+    if isinstance(v, (bool, np.bool_, int, np.integer, str)) or v is None:
+        return (type(v).__name__, repr(v))
+    return (type(v).__name__, repr(v))
+
+
+def snapshot(tracks) -> dict:
+    g = tracks.graph
+    ta = tracks.track_annotator
+    fd = tracks.features
+    seg = tracks.segmentation
+    return {
+        "node-order": tuple(g.nodes),
+        "nodes": {int(n): tuple((k, deep(v)) for k, v in d.items()) for n, d in g.nodes(data=True)},
+        "edge-order": tuple(g.edges),
+        "edges": {(int(u), int(v)): tuple((k, deep(x)) for k, x in d.items()) for u, v, d in g.edges(data=True)},
+        "segmentation": None if seg is None else (str(seg.dtype), tuple(seg.shape), seg.tobytes()),
+        "scale": None if tracks.scale is None else deep(tracks.scale),
+        "ndim": tracks.ndim,
+        "registry": tuple((k, deep(dict(f))) for k, f in fd.items()),
+        "special-keys": deep([fd.time_key, fd.position_key, fd.tracklet_key, fd.lineage_key]),
+        "track-lookup": {int(k): tuple(sorted(int(x) for x in v)) for k, v in ta.tracklet_id_to_nodes.items()},
+        "lineage-lookup": {int(k): tuple(sorted(int(x) for x in v)) for k, v in ta.lineage_id_to_nodes.items()},
+        "max-ids": (ta.max_tracklet_id, ta.max_lineage_id),
+        "node-id-counter": tracks.node_id_counter,
+        "history": (len(tracks.action_history.undo_stack), len(tracks.action_history.redo_stack),
+                    getattr(tracks.action_history, "_undo_pointer", None)),
+        "annotators": tuple((type(a).__name__, tuple(sorted(a.features.keys())),
+                             tuple(sorted(k for k, (_, on) in a.all_features.items() if on)))
+                            for a in tracks.annotators),
+    }
+
+
+def snap_diff(a: dict, b: dict) -> list[tuple[str, str]]:
+    out = []
+    for k in a:
+        if a[k] != b[k]:
+            if k == "scale" and a[k] is None:
+                out.append(("scale-none-overwritten", f"tracks.scale was None, is now {b[k]}"))
+            elif k == "segmentation":
+                out.append(("segmentation-changed", "array bytes / dtype / shape differ"))
+            elif isinstance(a[k], dict):
+                ks = [x for x in set(a[k]) | set(b[k]) if a[k].get(x) != b[k].get(x)]
+                out.append((f"{k}-changed", "; ".join(f"{x}: {a[k].get(x)} -> {b[k].get(x)}" for x in sorted(ks, key=str)[:3])[:400]))
+            else:
+                out.append((f"{k}-changed", f"{str(a[k])[:150]} -> {str(b[k])[:150]}"))
+    return out
+
+
+def enc_book(book: dict) -> list[str]:
+    out = [str(len(book))]
+    for k, v in book.items():
+        out += [str(int(k)), str(len(v))] + [str(int(x)) for x in v]
+    return out
+
+
+def enc_state(tracks, T: dict, I: Intern) -> list[str] | None:
+    enc = enc_tracks(T, I)
+    if enc is None:
+        return None
+    ta = tracks.track_annotator
+    act = sorted({k for a in tracks.annotators for k in a.features})
+    return (enc + enc_book(ta.tracklet_id_to_nodes) + enc_book(ta.lineage_id_to_nodes)
+            + [str(ta.max_tracklet_id), str(ta.max_lineage_id), str(tracks.node_id_counter),
+               str(len(tracks.action_history.undo_stack)), str(len(tracks.action_history.redo_stack))]
+            + [str(len(act))] + [str(I.key(k)) for k in act])
+
+
+def r_state_after(tracks, I: Intern) -> list[str]:
+    sc = tracks.scale
+    out = ["st", "scale"] + (["0"] if sc is None else ["1", str(len(sc))] + [I.fval(cnum(x)) for x in sc])
+    book = tracks.track_annotator.tracklet_id_to_nodes
+    out += ["t2n", str(len(book))]
+    for k in sorted(book):
+        out += [str(int(k)), str(len(book[k]))] + [str(int(x)) for x in book[k]]
+    return out + ["out"]
+
+
+def _opt_vals(v, I: Intern) -> list[str]:
+    if v is None:
+        return ["0"]
+    vs = cvals(v)
+    return ["1", str(len(vs))] + [I.fval(x) for x in vs]
+
+
+def gen_ro_ops(rng: random.Random, tracks, d: Path) -> list[dict]:
+    """(name, call on the real object, model opcode+args, rendering of the real result)"""
+    export_to_csv, export_to_geff, _, _, save_tracks, _ = _ft()
+    g = tracks.graph
+    nodes = [int(n) for n in g.nodes]
+    edges = [(int(u), int(v)) for u, v in g.edges]
+    ta = tracks.track_annotator
+    tids = sorted(ta.tracklet_id_to_nodes)
+    has_seg = tracks.segmentation is not None
+    T_max = 6
+    ops: list[dict] = []
+
+    def sub():
+        return sorted(rng.sample(nodes, rng.randint(0, len(nodes)))) if nodes else []
+
+    def add(name, call, code=None, render=None, key=None):
+        ops.append({"name": name, "call": call, "code": code, "render": render, "key": key or name})
+
+    s1, s2 = sub(), sub()
+    add("export_to_csv", lambda: export_to_csv(tracks, d / "q.csv"), ["0"] + enc_sel(None), ("csv", d / "q.csv", None, False))
+    add("export_to_csv(subset)", lambda: export_to_csv(tracks, d / "qs.csv", node_ids=set(s1)),
+        ["0"] + enc_sel(s1), ("csv", d / "qs.csv", None, True), key=f"export_to_csv(subset) {s1}")
+    add("export_to_csv(display names)", lambda: export_to_csv(tracks, d / "qd.csv", use_display_names=True))
+    if has_seg:
+        add("export_to_csv(export_seg)", lambda: export_to_csv(tracks, d / "qx.csv", export_seg=True, seg_path=d / "qx.tif"),
+            ["1"] + enc_sel(None), ("csvseg", d / "qx.csv", d / "qx.tif", False))
+    add("export_to_geff", lambda: export_to_geff(tracks, d / "qg"), ["2"] + enc_sel(None), ("geff", d / "qg"))
+    add("export_to_geff(subset)", lambda: export_to_geff(tracks, d / "qgs", node_ids=set(s2)),
+        ["2"] + enc_sel(s2), ("geff", d / "qgs"), key=f"export_to_geff(subset) {s2}")
+    add("save_tracks", lambda: save_tracks(tracks, d / "qi"), ["3"], ("int", d / "qi"))
+    add("features", lambda: list(tracks.features.keys()), ["19"], ("keys",))
+    add("nodes()", lambda: tracks.nodes(), ["11"], ("nats",))
+    add("edges()", lambda: tracks.edges(), ["12"], ("pairs",))
+    add("in_degree()", lambda: tracks.in_degree(), ["13"], ("pairs",))
+    add("out_degree()", lambda: tracks.out_degree(), ["14"], ("pairs",))
+    add("get_next_track_id", lambda: tracks.get_next_track_id(), ["9"], ("nat",))
+    add("get_next_lineage_id", lambda: tracks.get_next_lineage_id(), ["10"], ("nat",))
+    add("get_available_features", lambda: tracks.get_available_features())
+    add("features.node_features/edge_features/dump_json",
+        lambda: (tracks.features.node_features, tracks.features.edge_features, tracks.features.dump_json()))
+    add("max_track_id/track_id_to_node", lambda: (tracks.max_track_id, dict(tracks.track_id_to_node)))
+    if nodes:
+        ns = rng.sample(nodes, rng.randint(1, min(4, len(nodes))))
+        n1 = rng.choice(nodes)
+        add("get_positions", lambda: tracks.get_positions(ns), ["4", str(len(ns))] + [str(x) for x in ns], ("poss",),
+            key=f"get_positions {ns}")
+        add("get_positions(incl_time)", lambda: tracks.get_positions(ns, incl_time=True))
+        add("get_position", lambda: tracks.get_position(n1))
+        add("get_times", lambda: tracks.get_times(ns), ["5", str(len(ns))] + [str(x) for x in ns], ("nats",),
+            key=f"get_times {ns}")
+        add("get_time", lambda: tracks.get_time(n1))
+        add("get_pixels", lambda: tracks.get_pixels(n1), ["6", str(n1)], ("pixels",), key=f"get_pixels {n1}")
+        add("in_degree(nodes)", lambda: tracks.in_degree(np.array(ns)))
+        add("out_degree(nodes)", lambda: tracks.out_degree(np.array(ns)))
+        add("predecessors", lambda: tracks.predecessors(n1), ["15", str(n1)], ("nats",), key=f"predecessors {n1}")
+        add("successors", lambda: tracks.successors(n1), ["16", str(n1)], ("nats",), key=f"successors {n1}")
+        add("get_track_id/get_lineage_id", lambda: (tracks.get_track_id(n1), tracks.get_lineage_id(n1)))
+        attrs = [k for k in g.nodes[n1] if k not in (TIME_KEY, TID_KEY, LIN_KEY, "pos", "z", "y", "x")] + ["score", "no_such_key"]
+        k1 = rng.choice(attrs)
+        add("get_node_attr", lambda: tracks.get_node_attr(n1, k1), ("attr", n1, k1), ("vals",), key=f"get_node_attr {n1} {k1}")
+        add("get_nodes_attr", lambda: tracks.get_nodes_attr(ns, k1))
+        for _ in range(2):
+            tid = rng.choice(tids) if tids and rng.random() < 0.85 else rng.randrange(1, 40)
+            t = rng.randrange(T_max)
+            add("get_track_neighbors", (lambda tid=tid, t=t: tracks.get_track_neighbors(tid, t)),
+                ["7", str(tid), str(t)], ("optpair",), key=f"get_track_neighbors {tid} {t}")
+            add("has_track_id_at_time", (lambda tid=tid, t=t: tracks.has_track_id_at_time(tid, t)),
+                ["8", str(tid), str(t)], ("bool",), key=f"has_track_id_at_time {tid} {t}")
+    if edges:
+        e1 = rng.choice(edges)
+        ek = rng.choice(list(g.edges[e1].keys()) + ["iou", "w"])
+        add("get_edge_attr", lambda: tracks.get_edge_attr(e1, ek), ("eattr", e1, ek), ("vals",), key=f"get_edge_attr {e1} {ek}")
+        add("get_edges_attr", lambda: tracks.get_edges_attr(edges, ek))
+    rng.shuffle(ops)
+    return ops
+
+
+def render_ro(op: dict, result, tracks, T: dict, I: Intern) -> list[str] | None:
+    r = op["render"]
+    kind = r[0]
+    if kind == "csv":
+        return ["csv"] + str_csv_file(r[1], T, I, r[3]).split(" ")[1:]
+    if kind == "csvseg":
+        import tifffile
+        return ["csvseg"] + str_csv_file(r[1], T, I, r[3], np.asarray(tifffile.imread(r[2])), True).split(" ")[1:]
+    if kind == "geff":
+        return ["geff"] + str_geff_store(read_geff_store(r[1]), T, I).split(" ")[1:]
+    if kind == "int":
+        return ["int"] + str_internal_dir(read_internal_dir(r[1]), T, I).split(" ")[1:]
+    if kind == "keys":
+        return ["nats", str(len(result))] + [I.fkey(k) for k in result]
+    if kind == "nats":
+        vals = [int(x) for x in list(result)]
+        return ["nats", str(len(vals))] + [str(x) for x in vals]
+    if kind == "pairs":
+        arr = [tuple(int(y) for y in x) for x in np.asarray(result).reshape(-1, 2).tolist()]
+        return ["pairs", str(len(arr))] + [str(y) for x in arr for y in x]
+    if kind == "nat":
+        return ["nat", str(int(result))]
+    if kind == "bool":
+        return ["bool", "1" if result else "0"]
+    if kind == "optpair":
+        return ["optpair"] + ["-" if x is None else str(int(x)) for x in result]
+    if kind == "poss":
+        rows = np.asarray(result).tolist()
+        out = ["poss", str(len(rows))]
+        for row in rows:
+            out += ["1", str(len(row))] + [I.fval(cnum(x)) for x in row]
+        return out
+    if kind == "pixels":
+        if result is None:
+            return ["pixels", "0"]
+        flat = np.ravel_multi_index(tuple(np.asarray(a) for a in result), tracks.segmentation.shape) \
+            if len(result[0]) else np.zeros(0, dtype=np.int64)
+        return ["pixels", "1", str(len(flat))] + [str(int(x)) for x in flat]
+    if kind == "vals":
+        return ["vals"] + _opt_vals(result, I)
+    return None
+
+
+def check_c16(tracks, rng: random.Random, co: CaseOut, model: bool = True, only: str | None = None) -> None:
+    d = tmpdir()
+    try:
+        ops = gen_ro_ops(rng, tracks, d)
+        if only is not None:
+            ops = [o for o in ops if o["name"] == only]
+        T = table(tracks)
+        I = Intern()
+        dirty = False
+        for op in ops:
+            if dirty:
+                T = table(tracks)
+                I = Intern()
+                dirty = False
+            before = snapshot(tracks)
+            st_enc = enc_state(tracks, T, I) if (model and op["code"] is not None) else None
+            code = op["code"]
+            if st_enc is not None and isinstance(code, tuple):  # attribute queries: keys must be interned first
+                if code[0] == "attr":
+                    code = ["17", str(code[1]), str(I.key(code[2]))]
+                else:
+                    code = ["18", str(code[1][0]), str(code[1][1]), str(I.key(code[2]))]
+            st, res = guarded(op["call"])
+            co.evals += 1
+            co.count("C16:op:" + op["name"])
+            if T["nodes"]:
+                co.nontrivial.append(h([T["nodes"], T["edges"], T["scale"], op["key"]]))
+            after = snapshot(tracks)
+            if st == "hang":
+                co.fail(f"C16|{op['name']}|hang", "did not return", "hang")
+                continue
+            diffs = snap_diff(before, after)
+            for tag, what in diffs:
+                co.fail(f"C16|{op['name'].split('(')[0]}|{tag}", f"{op['key']}: {what}")
+            if diffs:
+                dirty = True
+            if st == "err":
+                # an exporter that raises on a valid object is C14/C15's business; the snapshot
+                # comparison above still applies (a failed read-only call must not modify either)
+                co.count(f"C16:raised:{op['name']}:{type(res).__name__}")
+                continue
+            if st_enc is not None:
+                try:
+                    rr = render_ro(op, res, tracks, T, I)
+                except Exception as e:  # noqa: BLE001
+                    rr = ["?render", type(e).__name__]
+                if rr is not None:
+                    real = " ".join(r_state_after(tracks, I) + rr)
+                    co.model(f"C16 {op['name']}", " ".join(["EX", "ro", str(I.one)] + st_enc + code), real)
+    finally:
+        shutil.rmtree(d, ignore_errors=True)
